@@ -66,7 +66,11 @@ def generate(rng, n, tier, stats):
             kk = rng.choice(['i', 'O'])
             keys = rand_labels(rng, len(arrays), kk, 'shuf')
             name = rng.choice([None, 'k', 'new', dims[0]] if rng.random() < 0.1 else [None, 'k', 'new'])
-            as_dict = rng.random() < 0.25
+            as_dict = rng.random() < 0.35
+            if as_dict and rng.random() < 0.5:
+                # the dict's insertion order differs from the order asked for with keys=
+                as_dict = list(range(len(arrays))); rng.shuffle(as_dict)
+            stats['stack_input']['list' if as_dict is False else 'dict' if as_dict is True else 'dict+keys'] += 1
             cases.append({'ins': arrays, 'ops': [['stack', name, keys, kk, align, sort, as_dict]]})
         else:
             arrays, dims = family(rng, stats, concat_dim='__pick__')
